@@ -107,6 +107,16 @@ Definition bf_write (T : ity) (w sh : Z) (v : Z) (data : list Z) : bres unit * l
         end
     end.
 
+(* ---- the write inside the enclosing object: the unit is ct_size bytes at byte offset `off`
+        (cf_offset) of `mem`; only read_raw_unsigned_data(data, ct_size) and
+        write_raw_integer_data(data, _, ct_size) touch memory *)
+Definition bf_write_at (T : ity) (w sh v : Z) (off : nat) (mem : list Z) : bres unit * list Z :=
+  match bf_write T w sh v (unit_at off (isize T) mem) with
+  | (r, d) => (r, splice off d mem)
+  end.
+Definition bf_read_at (T : ity) (w sh : Z) (off : nat) (mem : list Z) : bres Z :=
+  bf_read T w sh (unit_at off (isize T) mem).
+
 (* ---- for the correspondence run (tools/props/c02.py): unit contents as little-endian numbers;
         status 0 ok, 1 OverflowError, 2 TypeError, 99 UB *)
 Definition bres_code {A} (r : bres A) : Z :=
